@@ -195,7 +195,7 @@ func Restore(walletPath, mnemonic string, mintsToRestore []string) (uint64, erro
 				for _, proofState := range proofStateResponse.States {
 					// NUT-07 can also respond with witness data. Since not supporting this yet, ignore proofs that have witness
 					if len(proofState.Witness) > 0 {
-						break
+						continue
 					}
 
 					// save unspent proofs
